@@ -153,6 +153,97 @@ def strip_inside(contours, x, y, half):
     return False
 
 
+def stroke_classify(contours, x, y, w, join, miterlimit, cap, dash, offset, band):
+    """three-valued membership of (x, y) in the stroke of the polyline contours (user space): True = covered whatever the
+    stroker does within `band`, False = not covered, None = undecided (near caps, joins, dash ends, or inside the band).
+
+    Covered for certain: a perpendicular foot falls on a drawn part of a segment, away from open ends and dash ends, at less
+    than w/2 - band (or, with round joins / caps, the point is that close to a drawn vertex / end point).
+    Not covered for certain: no segment strip (widened and lengthened by band) with a drawn part near the foot contains the
+    point, and the point is farther from every drawn interior vertex than the join can reach (w/2, or miterlimit * w/2 for
+    miter joins) and from every open end / dash end than the cap can reach."""
+    half = w / 2.0
+    cap_ext = 0.0 if cap == "butt" else (half if cap == "round" else half * math.sqrt(2))
+    cap_len = 0.0 if cap == "butt" else half          # how far a cap lengthens a dash along the path
+    join_r = half * max(miterlimit, 1.0) if join == "miter" else half
+    total = sum(dash) if dash else 0.0
+    dashed = bool(dash) and total > 0
+
+    def dash_state(spos):
+        """(is_on, distance to the nearest dash boundary) at arc length spos of a subpath"""
+        if not dashed:
+            return True, float("inf")
+        p = (spos + offset) % total
+        acc = 0.0
+        for i, d in enumerate(dash):
+            if p < acc + d or i == len(dash) - 1:
+                return (i % 2 == 0), min(p - acc, acc + d - p)
+            acc += d
+        return False, 0.0
+
+    inside = False
+    maybe = False
+    for pts, closed in contours:
+        n = len(pts)
+        last = n if closed else n - 1
+        cum = [0.0]
+        for i in range(last):
+            ax, ay = pts[i]
+            bx, by = pts[(i + 1) % n]
+            cum.append(cum[-1] + math.hypot(bx - ax, by - ay))
+        length = cum[-1]
+        for i in range(last):
+            ax, ay = pts[i]
+            bx, by = pts[(i + 1) % n]
+            dx, dy = bx - ax, by - ay
+            l = math.hypot(dx, dy)
+            if l == 0:
+                continue
+            t = ((x - ax) * dx + (y - ay) * dy) / l          # along the segment
+            perp = abs((x - ax) * dy - (y - ay) * dx) / l
+            if perp >= half + band or t < -band - cap_len or t > l + band + cap_len:
+                continue
+            tc = min(max(t, 0.0), l)
+            spos = cum[i] + tc
+            on, margin = dash_state(spos)
+            near_open_end = (not closed) and (spos < band or length - spos < band)
+            if 0.0 <= t <= l and perp < half - band and on and margin > band and not near_open_end:
+                inside = True
+            # could the stroke reach the point from this segment?
+            if on or margin <= cap_len + band:
+                if -band - (cap_len if (not on or near_open_end or (not closed and (i == 0 or i == last - 1))) else 0.0) <= t <= l + band + (
+                        cap_len if (not on or near_open_end or (not closed and (i == 0 or i == last - 1))) else 0.0):
+                    maybe = True
+        # vertices: joins at interior vertices, caps at open ends
+        for j in range(n):
+            px, py = pts[j]
+            d = math.hypot(x - px, y - py)
+            is_end = (not closed) and (j == 0 or j == n - 1)
+            spos = cum[min(j, len(cum) - 1)] if not (closed and j == 0) else 0.0
+            on, margin = dash_state(spos)
+            drawn = on or margin <= cap_len + band
+            if not drawn:
+                continue
+            if is_end:
+                if cap == "round" and d < half - band and on and margin > band:
+                    inside = True
+                if cap != "butt" and d < cap_ext + band:
+                    maybe = True
+            else:
+                if join == "round" and d < half - band and on and margin > band:
+                    inside = True
+                if d < join_r + band:
+                    maybe = True
+        if dashed:
+            # dash ends inside segments carry caps too: covered by the `margin <= cap_len + band` widening above
+            pass
+    if inside:
+        return True
+    if not maybe:
+        return False
+    return None
+
+
 def bbox(contours):
     xs = [p[0] for pts, _ in contours for p in pts]
     ys = [p[1] for pts, _ in contours for p in pts]
